@@ -174,15 +174,23 @@ def check_C13(c):
     q = c.quick
     inv = ["TypeOK", "CopiesDisjoint", "ReshapeKeepsFlat", "Emit"]
     # (a) reshape to every factorisation, after slicing / transposing, row- and column-major
-    k = dict(MinRank=0, MaxRank=3 if q else 4, MaxDim=4 if q else 5, MaxDimHi=2 if q else 3, HiRank=3, Ctors={S("C"), S("F")},
-             MaxNewRank=3 if q else 4, WithViews=True, Mode=S("reshape"))
+    k = dict(MinRank=0, MaxRank=3, MaxDim=4 if q else 5, MaxDimHi=2 if q else 3, HiRank=3, Ctors={S("C"), S("F")},
+             MaxNewRank=3, WithViews=True, Mode=S("reshape"))
     cases = c.tlc("MC_shape", "reshape", k, inv)
-    c.replay("reshape", cases, dtypes="sizes", pals="ident", rotate=2 if q else 0)
+    c.replay("reshape", cases, dtypes="sizes", pals="ident", rotate=2 if q else 3)
+    if not q:   # rank 4 (every axis <= 3) as built, to every factorisation of rank <= 4
+        k4 = dict(MinRank=4, MaxRank=4, MaxDim=3, MaxDimHi=3, HiRank=4, Ctors={S("C"), S("F")}, MaxNewRank=4, WithViews=False, Mode=S("reshape"))
+        cases = c.tlc("MC_shape", "reshape-r4", k4, inv)
+        c.replay("reshape-r4", cases, dtypes="sizes", pals="ident", rotate=2)
     # (b) transposition: every axis list (valid, repeated, out of range, wrong length) against the calculator
-    k = dict(MinRank=0, MaxRank=3 if q else 4, MaxDim=3, MaxDimHi=2, HiRank=3, Ctors={S("C"), S("F")},
+    k = dict(MinRank=0, MaxRank=3, MaxDim=3, MaxDimHi=2, HiRank=3, Ctors={S("C"), S("F")},
              MaxNewRank=1, WithViews=not q, Mode=S("perm"))
     cases = c.tlc("MC_shape", "perm", k, inv)
-    c.replay("perm", cases, dtypes="float64,int8" if q else "sizes", pals="ident", extra=["-calc"])
+    c.replay("perm", cases, dtypes="float64,int8", pals="ident", extra=["-calc"])
+    if not q:   # rank 4 as built (625 axis lists per shape, up to three transpositions)
+        k4 = dict(MinRank=4, MaxRank=4, MaxDim=2, MaxDimHi=2, HiRank=3, Ctors={S("C")}, MaxNewRank=1, WithViews=False, Mode=S("perm"))
+        cases = c.tlc("MC_shape", "perm-r4", k4, inv)
+        c.replay("perm-r4", cases, dtypes="float64", pals="ident", extra=["-calc"])
     # (c) slicing: the argument space of C02 against the shape-only calculator
     sl = dict(MinRank=1, MaxRank=2, MaxDim=3 if q else 5, MaxDimHi=2, FullRank=2, Depth=1, WithT=False, Ctors={S("C")}, MaxStep=2 if q else 3)
     cases = c.tlc("MC_slice", "slice-calc", sl, ["TypeOK", "Emit"])
